@@ -1,5 +1,30 @@
 # Registered checks: property id -> harness files, entries, bounds.  See DESIGN.md section 3.
 SPECS = {
+ "C11": {
+  "explanation": "Full stack on the HDF5 model's identifier table: with handles to every entity kind (and copies, a dimension, a DataView) alive or dropped, close() must leave zero open HDF5 identifiers of the file, isOpen() false, a second close a no-op; each of 16 uses of a stale handle must throw without touching or re-opening the file; the path can be truncated and reused afterwards.",
+  "bounds": {"live_handles": "all of harness/world.hpp + dimension + DataView, or none", "stale_uses": 16},
+  "outside": ["completeness of bytes on disk after flush/close, reopen after SIGKILL: crash points inside libhdf5/OS cannot be encoded (not applicable part)", "other processes"],
+  "assumptions": ["libhdf5 replaced by h5model (identifier reference counts, weak file close degree)"],
+  "harnesses": [{"file": "C11_close.cpp", "entries": [{"entry": "vh_c11_close"}]}]},
+ "C12": {
+  "explanation": "K: the real util::createId (boost mt19937 seeded from time(), basic_random_generator, uuids::to_string) executed in the engine: first three ids well-formed version-4 UUIDs and distinct. S: in the world file every entity id and the file id is well formed; across 14 operations (re-create by name, modify, replace, delete+create, reopen) no surviving entity's id changes, new entities get fresh ids, forceId changes only the file id.",
+  "bounds": {"operations": 14, "ids_checked": "all entities of harness/world.hpp", "createId": "first 3 calls, time() concrete"},
+  "outside": ["absence of collisions between independently seeded generators / other processes (probabilistic; the generator is seeded with time(0) only: see DESIGN.md)", "all 2^128 raw values of to_string"],
+  "assumptions": ["S entries use the counter-based createId replacement (ids unique by construction); the K entry runs the real one"],
+  "harnesses": [{"file": "C12_ids.cpp", "entries": [{"entry": "vh_c12_real_createid", "no_replace": ["createId"],
+        "require_natives": [{"symbol": "random_device", "msg": "createId() consults no entropy source besides time(): processes started in the same second generate identical ids", "loc": "src/util/util.cpp createId"}]}, {"entry": "vh_c12_stable"}]}]},
+ "C09": {
+  "explanation": "Full stack on the HDF5 model, which counts every mutation of a file and enforces the access intent: a library-produced file is opened ReadOnly, read through every getter, each of 40 mutating API calls is attempted, the file is closed - the mutation counter must never move and every call must throw; ReadWrite preserves the observation; Overwrite yields an empty valid file; absent path / plain HDF5 file are refused. Header defects (format, version, id) are decided in C10.",
+  "bounds": {"mutating_calls": 40, "file": "harness/world.hpp", "modes": 3},
+  "outside": ["'not a single byte changes' on a real file: that is libhdf5 honouring H5F_ACC_RDONLY", "non-HDF5 files", "compression defaults (recorded only)"],
+  "assumptions": ["libhdf5 replaced by h5model; boost::filesystem::exists and FileHDF5::fileExists answered by the model's file table"],
+  "harnesses": [{"file": "C09_modes.cpp", "entries": [{"entry": "vh_c09_readonly"}, {"entry": "vh_c09_readwrite_overwrite"}]}]},
+ "C04": {
+  "explanation": "Full stack on the HDF5 model: in the fully linked world file one of 17 entities (every kind, including link targets with several holders and subtree roots) is deleted by name, by id or by handle; every entity is then re-collected through the public getters and compared with the pre-state: deleted set unreachable, survivors' attributes/data identical, their link lists equal to the old ones minus links into the deleted set, also after reopen.",
+  "bounds": {"victims": 17, "ways": ["name", "id", "handle"], "graph": "harness/world.hpp (one target linked from up to 3 holders; source/section subtrees of depth 2)"},
+  "outside": ["other link graphs", "links created after a reopen", "data-frame dimensions as holders"],
+  "assumptions": ["libhdf5 replaced by h5model (hard-link counts, H5Iget_name semantics as validated by nix's test-suite)"],
+  "harnesses": [{"file": "C04_delete.cpp", "entries": [{"entry": "vh_c04_delete"}]}]},
  "C08": {
   "explanation": "Full stack on the HDF5 model: on a fully linked file one call from a menu of 46 calls the API must reject (each class of invalid argument the property names) is attempted; if it throws, the complete observation of the file (every public getter, data included) must equal the observation taken before the call, also after close+reopen.",
   "bounds": {"rejected_call_menu": 46, "file_state": "the fixed fully linked world of harness/world.hpp", "prefix_history": 0},
